@@ -27,7 +27,7 @@ PROPS = {
         "assumptions": ["addresses 0..127, SAP and PDU bytes 0..255, length byte <= 249 (the code's own assert), transmit buffer >= telegram length"],
     },
     "C10": {
-        "claimed": False,
+        "claimed": True,
         "coq": "Properties/C10.v",
         "domains": ["codec"],
         "nontrivial": ["dec:A", "dec:R", "mut:"],
